@@ -557,9 +557,23 @@ impl<'a> Sim<'a> {
                 if view.tpi.is_empty() || self.t.chance(1, 2) {
                     let token = format!("tok{}", self.t.below(4));
                     let pk = refmodel::rb64::encode_std(&self.idserver.public());
-                    let mut c = vec![("display_name", J::s("a…@e…")), ("key_validity_url", J::s("https://id.example/_matrix/identity/v2/pubkey/isvalid")), ("public_key", J::Str(pk.clone()))];
-                    if self.t.chance(1, 2) {
-                        c.push(("public_keys", J::Arr(vec![o(vec![("public_key", J::Str(pk)), ("key_validity_url", J::s("https://id.example/valid"))])])));
+                    let other_pk = refmodel::rb64::encode_std(&revent::SignKey::from_seed([7u8; 32], "0").public());
+                    let mut c = vec![("display_name", J::s("a…@e…")), ("key_validity_url", J::s("https://id.example/_matrix/identity/v2/pubkey/isvalid"))];
+                    match self.t.below(4) {
+                        0 => c.push(("public_key", J::Str(pk.clone()))),
+                        1 => {
+                            c.push(("public_key", J::Str(pk.clone())));
+                            c.push(("public_keys", J::Arr(vec![o(vec![("public_key", J::Str(pk)), ("key_validity_url", J::s("https://id.example/valid"))])])));
+                        }
+                        2 => {
+                            // the signing key is listed only further down the list
+                            c.push(("public_key", J::Str(other_pk.clone())));
+                            c.push(("public_keys", J::Arr(vec![o(vec![("public_key", J::Str(other_pk))]), o(vec![("public_key", J::Str(pk))])])));
+                        }
+                        _ => {
+                            // no listed key belongs to the identity server: redeeming invites must fail
+                            c.push(("public_key", J::Str(other_pk)));
+                        }
                     }
                     d.ty = "m.room.third_party_invite".into();
                     d.state_key = Some(token);
